@@ -32,6 +32,13 @@ def handle (j : Json) : Json :=
       ok (Json.arr #[Json.arr (s.env.map (fun (n : Nat) => Json.num (JsonNumber.fromNat n))).toArray,
                      Json.arr (s.heap.map (fun c => ofInts (toList c))).toArray])
     | _, _ => err "bad-args"
+  | .arr #[.str "eqd", x, mx, y, my] =>
+    -- `a == b` and `b == a` between objects whose __dict__ may lack fields (presence flags 1/0 in field order)
+    match getInts x, getInts mx, getInts y, getInts my with
+    | some xs, some ms, some ys, some ns =>
+      let a := PCap.ofLists xs (ms.map (· != 0)); let b := PCap.ofLists ys (ns.map (· != 0))
+      ok (Json.arr #[Json.bool (eqD a b), Json.bool (eqD b a), Json.bool (eqD a a), Json.bool (eqD b b)])
+    | _, _, _, _ => err "bad-args"
   | .arr #[.str op, x] =>
     match getInts x with
     | some xs =>
